@@ -5,6 +5,7 @@ import (
 	"errors"
 	"math/rand"
 	"strings"
+	"sync"
 	"time"
 
 	"github.com/dgryski/go-wyhash"
@@ -99,6 +100,7 @@ type RedisPubsubPeers struct {
 	Done chan struct{}
 
 	peers     *generics.MapWithTTL[string, string]
+	hashMut   sync.Mutex // protects hash: every membership message is handled on a goroutine of its own
 	hash      uint64
 	callbacks []func()
 	sub       pubsub.Subscription
@@ -108,6 +110,8 @@ type RedisPubsubPeers struct {
 // checkHash checks the hash of the current list of peers and calls any registered callbacks
 // in a separate goroutine if the hash has changed.
 func (p *RedisPubsubPeers) checkHash() {
+	p.hashMut.Lock()
+	defer p.hashMut.Unlock()
 	peers := p.peers.SortedKeys()
 	newhash := hashList(peers)
 	if newhash != p.hash {
@@ -118,6 +122,13 @@ func (p *RedisPubsubPeers) checkHash() {
 	}
 	p.Metrics.Gauge("num_peers", float64(len(peers)))
 	p.Metrics.Gauge("peer_hash", float64(p.hash))
+}
+
+// currentHash returns the hash of the peer list as of the last checkHash.
+func (p *RedisPubsubPeers) currentHash() uint64 {
+	p.hashMut.Lock()
+	defer p.hashMut.Unlock()
+	return p.hash
 }
 
 func (p *RedisPubsubPeers) listen(ctx context.Context, msg string) {
@@ -212,7 +223,7 @@ func (p *RedisPubsubPeers) Ready() error {
 				p.Logger.Debug().WithFields(map[string]any{
 					"ids":       p.peers.SortedKeys(),
 					"peers":     p.peers.SortedValues(),
-					"hash":      p.hash,
+					"hash":      p.currentHash(),
 					"num_peers": p.peers.Length(),
 					"self":      myaddr,
 				}).Logf("peer report")
